@@ -477,6 +477,69 @@ def wedge_call_obligation(model, rep, clause):
            det, node=g.node, fn=g, clause=clause, stmt="def _get_missing_wedge_mask")
 
 
+def no_wedge_shortcut_clause(model, rep):
+    """A factory may answer a given tilt range with the all-pass model (NoWedge) only when nothing is missing, i.e. the range covers [-90, 90] on both sides.
+    Evaluated on affine forms with tilt_range = (lo, hi): every path that returns a NoWedge must imply lo <= -90 and hi >= 90."""
+    from fractions import Fraction
+    n = 0
+    for fn in model.all_functions:
+        if fn.module.relpath != "acryo/tilt/core.py" or fn.is_overload or fn.parent is not None:
+            continue
+        rng_params = [p for p in fn.param_names() if "tilt_range" in p or p == "tilt"]
+        if not rng_params:
+            continue
+        n += 1
+        rep.instance("NOWEDGE", fn.loc())
+        dom = AffineDomain(model)
+        it = Interp(model, dom, depth=0)
+        args = {p: Tup([dom.sym(f"{p}_lo"), dom.sym(f"{p}_hi")]) for p in rng_params}
+        bad: list = []
+
+        def on_return(interp, f_, st, val, env, _fn=fn, _bad=bad, _dom=dom, _ps=rng_params):
+            if f_ is not _fn or not (isinstance(val, Obj) and val.cls.name == "NoWedge"):
+                return
+            pcs = env.get("$pc", ())
+            for p in _ps:
+                lo, hi = _dom.sym(f"{p}_lo"), _dom.sym(f"{p}_hi")
+                for what, goal in ((f"{p}[0] <= -90", _dom.add(_dom.neg(lo), mkA(-90))), (f"{p}[1] >= 90", _dom.add(hi, mkA(-90)))):
+                    if not _dom.prove_ge_form(goal, pcs):
+                        # witness among representative tilt angles (evaluation of the extracted path conditions only)
+                        w = None
+                        names = [f"{q}_{e}" for q in _ps for e in ("lo", "hi")]
+                        import itertools
+                        for vals in itertools.product((-90, -60, -100, 0, 35, 60, 90, 100), repeat=len(names)):
+                            asg = {k: Fraction(v) for k, v in zip(names, vals)}
+                            if any(asg[f"{q}_lo"] >= asg[f"{q}_hi"] for q in _ps):
+                                continue
+                            okp = True
+                            for c_ in pcs:
+                                v_ = _dom.eval_form(c_.diff, asg) if hasattr(c_, "diff") else None
+                                if v_ is None or not {"<": v_ < 0, "<=": v_ <= 0, ">": v_ > 0, ">=": v_ >= 0, "==": v_ == 0, "!=": v_ != 0}[c_.op]:
+                                    okp = False
+                                    break
+                            g_ = _dom.eval_form(goal, asg) if okp else None
+                            if g_ is not None and g_ < 0:
+                                w = ({k: int(v) for k, v in asg.items()}, float(g_))
+                                break
+                        _bad.append((st, what, w))
+
+        it.on_return.append(on_return)
+        try:
+            it.run(fn, args=args)
+        except Exception as e:  # pragma: no cover
+            rep.note(f"{fn.name}: not evaluated ({e!r})")
+            continue
+        ok = not bad
+        det = ""
+        if bad:
+            st, what, w = bad[0]
+            ok = False if w is not None else None
+            det = f"`{norm_src(st)}` is reached without `{what}`" + (f", e.g. for {w[0]}: a one-sided range gets the all-pass mask" if w is not None else "")
+        rep.ob("NOWEDGE", fn.anchor, "a given tilt range is answered with NoWedge only if it covers [-90, 90] on both sides", ok, det,
+               node=(bad[0][0] if bad else fn.node), fn=fn, clause="3 models", stmt=(None if bad else f"def {fn.name} NoWedge"))
+    rep.floor("NOWEDGE", 2, "(single_axis and dual_axis)")
+
+
 def check(model, rep, tier):
     rep.decided += ["C08.1 per-axis index grid is FFT-ordered for even and odd sizes in all three grid builders", "C08.2 plane normals are mapped W->M and then divided by the box shape in all four mask builders",
                     "C08.3 non-strict predicate keeps DC / is even", "C08.4 no-wedge, union, axis tables", "C08.5 every accepted tilt spelling reaches the stored tilt model"]
@@ -486,6 +549,7 @@ def check(model, rep, tier):
     normals_clause(model, rep, funcs)
     models_clause(model, rep, funcs)
     selection_clause(model, rep, funcs)
+    no_wedge_shortcut_clause(model, rep)
     from .generic import axis_convention_obligations
     axis_convention_obligations(model, rep, ["acryo/backend/_missing_wedge.py", "acryo/tilt/_utils.py", "acryo/_utils.py", "acryo/tilt/_single.py", "acryo/tilt/_base.py"],
                                 "1 grid", floor=3)
